@@ -1,6 +1,7 @@
 package main
 
-// Source normalisation in front of the SmbCommands recogniser (smb_commands.go).
+// Source normalisation in front of the SmbCommands recogniser (smb_commands.go).  Further groups of rules, under the same
+// contract: smb_normalise2.go, smb_normalise3.go, smb_normalise4.go.
 //
 // The recogniser reads ONE dialect of Go: the statement shapes the 115 Marshal/Unmarshal bodies were written in.
 // This file rewrites other shapes THAT MEAN THE SAME into that dialect, statement list to statement list, before the
@@ -554,9 +555,16 @@ func (nz *normaliser) normMarshal(fd *ast.FuncDecl, c *jCmd) []ast.Stmt {
 		}
 	}
 	list = nz.marshalPrelude(fd, list, c, st)
+	// M13 emission helpers are inlined first; the table bookkeeping of M4/M5 below looks at the body as it then stands
+	mbody := fd.Body
+	if in := nz.emissionHelpers(list, st.used); !sameStmts(in, list) {
+		list = in
+		mbody = &ast.BlockStmt{List: list}
+		st.body = mbody
+	}
 	// M6 buffers that are indexed or sliced somewhere, or declared as arrays, are handled here, the others (buf2 := make;
 	// PutUint16(buf2, …); append(…, buf2...)) are the recogniser's own dialect
-	ast.Inspect(fd.Body, func(x ast.Node) bool {
+	ast.Inspect(mbody, func(x ast.Node) bool {
 		switch t := x.(type) {
 		case *ast.SliceExpr:
 			if id, ok := t.X.(*ast.Ident); ok {
@@ -569,7 +577,7 @@ func (nz *normaliser) normMarshal(fd *ast.FuncDecl, c *jCmd) []ast.Stmt {
 		}
 		return true
 	})
-	st.capVars = nz.capacityVars(fd.Body)
+	st.capVars = nz.capacityVars(mbody)
 	out := nz.normMarshalList(list, st, true)
 	return nz.tidy(nz.canonEpilogue(out, st))
 }
@@ -668,6 +676,12 @@ func (nz *normaliser) onlyRanged(body *ast.BlockStmt, name string) bool {
 	ast.Inspect(body, func(x ast.Node) bool {
 		if rs, ok := x.(*ast.RangeStmt); ok {
 			if id, ok := rs.X.(*ast.Ident); ok && id.Name == name {
+				ranged++
+			}
+		}
+		// M4': `len(t)` of the literal is a constant; the occurrence is not a use of its elements
+		if ce, ok := x.(*ast.CallExpr); ok && nz.s(ce.Fun) == "len" && len(ce.Args) == 1 {
+			if id, ok := ce.Args[0].(*ast.Ident); ok && id.Name == name {
 				ranged++
 			}
 		}
@@ -1005,7 +1019,7 @@ func (nz *normaliser) normMarshalList(list []ast.Stmt, st *mstate, top bool) []a
 		}
 		out = append(out, s0)
 	}
-	return out
+	return nz.byteRuns(out, st)
 }
 
 func sameStmts(a, b []ast.Stmt) bool {
@@ -1275,12 +1289,14 @@ func (nz *normaliser) normUnmarshal(fd *ast.FuncDecl, c *jCmd) []ast.Stmt {
 	nz.cur = c
 	list := fd.Body.List
 	orig := list
+	list = nz.unmarshalAccessors(fd, list)
 	list = nz.splitIfInit(list)
 	list = nz.mapBlocks(list, nz.elseReturn)
 	list = nz.exprClosures(fd, list)
 	list = nz.inlineCalls(fd, list)
 	list = nz.cursor(fd, list)
 	list = nz.tableLoops(fd, list)
+	list = nz.constCursor(list)
 	list = nz.shrinkingSlice(list)
 	list = nz.mapBlocks(list, nz.intTemps)
 	list = nz.mapBlocks(list, nz.cursorForms)
@@ -1289,6 +1305,7 @@ func (nz *normaliser) normUnmarshal(fd *ast.FuncDecl, c *jCmd) []ast.Stmt {
 	list = nz.mapBlocks(list, nz.sliceTemps)
 	list = nz.mapBlocks(list, nz.byteAssembly)
 	list = nz.mapBlocks(list, nz.hoistedBound)
+	list = nz.deadAdvance(list)
 	list = nz.header(list)
 	if sameStmts(list, orig) {
 		return orig
